@@ -2,19 +2,14 @@ import Driver.Common
 import DryocVerif.Spec.NaCl
 import DryocVerif.Model.Poly1305
 import DryocVerif.Model.SecretBox
+import DryocVerif.Model.Inst
 open DryocVerif
 open DryocVerif.Model.SecretBox
 namespace Driver.Box
 
-/-- the primitives the *model* column is instantiated with: dependency crates are
-represented by their executable specs, dryoc's own Poly1305 by its limb model -/
-def prims : Prims where
-  stream := fun k n len => Spec.Salsa20.xsalsa20Stream k n 0 len
-  mac := Model.Poly1305.mac
-  dh := Spec.X25519.x25519
-  dhBase := Spec.X25519.x25519Base
-  hsalsa := fun k i => Spec.Salsa20.hsalsa20 k i
-  h24 := fun m => Spec.Blake2b.hash 24 [] m
+/-- the primitives the *model* column is instantiated with: `Model.boxPrims`
+(`DryocVerif/Model/Inst.lean`), the very object the concrete theorems of `Properties/C01.lean` are about -/
+abbrev prims : Prims := Model.boxPrims
 
 def opened (r : Opened) : String :=
   match r.res with
